@@ -47,6 +47,7 @@ PROBES = [
     '10 IF A = 1 THEN 30 ELSE IF A = 2 THEN X = 25 ELSE IF B = 7 THEN 30\n30 END',
     '10 IF A = 1 THEN X = 1.5 ELSE IF A = 2 THEN X = &HF ELSE X = 1E2', '10 FOR I = 1 TO 2 STEP 1 : PRINT I : NEXT',
     '10 ON A + 1 GOTO 10 : ON B GOSUB 10', '10 HCOLOR 1 : HSCREEN 1 : HCLS 1 : CLS 1 : WIDTH 40', '10 RGB : CMP : PALETTE RGB',
+    '10 A$ = "HELLO"\n20 PRINT "A  B" ; "  C  "\n30 B$ = "X  Y"', '10 LET Q$ ( 1 ) = "AB"\n20 REM  TWO  BLANKS\n30 DATA A  B , "C  D"',
     '10 PRINT TAB ( 5 ) ; "X" ; HEX$ ( 255 ) ; STR$ ( 1 ) ; VAL ( "1" ) ; ASC ( "A" ) ; CHR$ ( 65 ) ; LEN ( A$ )',
 ]
 
